@@ -54,6 +54,48 @@ type compatFn func(v, p Label) bool
 // derive returns the available supplier labels under the least fixpoint and which
 // converters are satisfiable.
 func derive(s Scenario, compat compatFn) (avail []Label, convSat []bool) {
+	return deriveGen(s, compat, false)
+}
+
+// genVisible: converter generators run in a single pass over the values present in
+// the graph when the options are applied (supplied values, named parameters of the
+// target and of supplied converters, outputs of supplied converters). A generated
+// converter whose trigger type only appears through another generated converter is
+// never generated; the completeness model (Core) does not count on it.
+func genVisible(s Scenario, c FuncSpec) bool {
+	if len(c.In) == 0 {
+		return false
+	}
+	t := c.In[0].T
+	for _, in := range s.Inputs {
+		if in.L.T == t {
+			return true
+		}
+	}
+	for _, l := range s.Target.In {
+		if l.Name != "" && l.T == t {
+			return true
+		}
+	}
+	for _, d := range s.Convs {
+		if d.Gen {
+			continue
+		}
+		for _, l := range d.In {
+			if l.Name != "" && l.T == t {
+				return true
+			}
+		}
+		for _, l := range d.Out {
+			if l.T == t {
+				return true
+			}
+		}
+	}
+	return false
+}
+
+func deriveGen(s Scenario, compat compatFn, strictGen bool) (avail []Label, convSat []bool) {
 	for _, in := range s.Inputs {
 		avail = append(avail, in.L)
 	}
@@ -62,6 +104,9 @@ func derive(s Scenario, compat compatFn) (avail []Label, convSat []bool) {
 		changed = false
 		for ci, c := range s.Convs {
 			if convSat[ci] {
+				continue
+			}
+			if strictGen && c.Gen && !genVisible(s, c) {
 				continue
 			}
 			if satisfiable(c.In, avail, compat) {
